@@ -44,6 +44,7 @@ class Fixture(object):
         self.conn = Svc()._connect(Channel(self.net.a, compress=False), {"sync_request_timeout": cfg_timeout})
         sim.simulate_conn_locks(s, self.conn, "P")
         self.mode = mode
+        self.t_base = 0.0
         self.obs = []
         self.spins = 0
         self.fired = []
@@ -78,7 +79,7 @@ class Fixture(object):
                     raise
                 r = "timeout" if isinstance(ex, TimeoutError) else "exc:" + type(ex).__name__
             if name is not None:
-                self.obs.append((name, r, int(round(s.now))))
+                self.obs.append((name, r, int(round(s.now - self.t_base))))
 
     @property
     def idle(self):
@@ -117,6 +118,13 @@ class Fixture(object):
         if self.mode == "timed":
             import rpyc
             self.do(None, lambda: setattr(self, "res", rpyc.timed(self.fake_fn, expiry)("data")))
+        elif self.mode == "timed_late":
+            # the wrapper is made long before it is used: the time limit counts from each invocation, not from then
+            import rpyc
+            self.do(None, lambda: setattr(self, "wrapper", rpyc.timed(self.fake_fn, expiry)))
+            self.sched.now += 1000.0
+            self.t_base = self.sched.now
+            self.do(None, lambda: setattr(self, "res", self.wrapper("data")))
         elif self.mode == "areq":
             self.do(None, lambda: setattr(self, "res", self.conn.async_request(
                 c.HANDLE_PING, "data", timeout=None if expiry == NONE_T else expiry)))
@@ -175,12 +183,12 @@ def replay(chk, beh, mode="async"):
     """returns list of (key, message) disagreements between the code and the specification"""
     labels = [l for l, _ in beh]
     first_exp = None
-    if mode in ("sync", "timed", "areq"):
+    if mode in ("sync", "timed", "timed_late", "areq"):
         first_exp = int(labels[1].split("(")[1].rstrip(")"))
-    fx = Fixture(mode=mode if mode in ("timed", "areq") else "async")
+    fx = Fixture(mode=mode if mode in ("timed", "timed_late", "areq") else "async")
     bad = []
     try:
-        if mode in ("timed", "areq"):
+        if mode in ("timed", "timed_late", "areq"):
             fx.create(expiry=first_exp)
             fx.obs.append(("set_expiry", first_exp, 0))
             start = 2
@@ -297,7 +305,7 @@ def main():
             if labels[2] == "StartWait":
                 modes.append("sync")
             if t0 >= 0:
-                modes.append("timed")
+                modes += ["timed", "timed_late"]
         for mode in modes:
             bad, labels = (replay_sync(chk, beh) if mode == "sync" else replay(chk, beh, mode))
             chk.distinct(("wait-graph", mode, tuple(labels)))
@@ -326,9 +334,9 @@ def main():
             if labels[1].startswith("SetExpiry") and len(labels) > 2 and labels[2] == "StartWait":
                 modes.append("sync")
                 if int(labels[1].split("(")[1].rstrip(")")) >= 0:
-                    modes.append("timed")
+                    modes += ["timed", "timed_late"]
             elif labels[1].startswith("SetExpiry") and int(labels[1].split("(")[1].rstrip(")")) >= 0:
-                modes.append("timed")
+                modes += ["timed", "timed_late"]
             for mode in modes:
                 bad, labels = (replay_sync(chk, beh) if mode == "sync" else replay(chk, beh, mode))
                 total += 1
